@@ -361,6 +361,7 @@ package leveldb
 //@     invariant [C09,C18:a-read-only-request-is-never-held-as-a-transient-error] err != ErrReadOnly
 //@   loop 3
 //@     invariant [lk-parked] db.compWriteLocking ==> held(db.writeLockC) >= 1
+//@     invariant [C09,C18:the-persistent-error-state-is-flagged-while-it-lasts] db.compPerErrSet == 1
 
 // ---------------------------------------------------------------------------
 // Manifest bookkeeping (C01, C04, C08): every successful commit records the journal and sequence numbers its
@@ -1516,6 +1517,53 @@ package leveldb
 //@   safety off
 //@   requires db.closed != 0
 //@   ensures [C18:closed-means-closed] result == ErrClosed && calls("storage.Storage.Create") == old(calls("storage.Storage.Create")) && calls("storage.Storage.Remove") == old(calls("storage.Storage.Remove")) && calls("storage.Storage.Rename") == old(calls("storage.Storage.Rename")) && calls("storage.Storage.SetMeta") == old(calls("storage.Storage.SetMeta"))
+
+// C18: "a DB opened or switched to read-only ... once in-flight background work has drained mutates nothing further".
+// The persistent error state (read-only mode, corruption found by a compaction) is entered by the error goroutine,
+// which raises a flag as it enters it; from then on no table compaction is due, none is picked and a range compaction
+// is refused with the persistent error - also the seek compactions that plain reads used to set off (F38).
+// (what the compactions themselves do is the subject of other properties: left abstract here)
+//@ func (*session).pickCompaction
+//@   props C18
+//@   trusted
+//@ func (*session).getCompactionRange
+//@   props C18
+//@   trusted
+//@ func (*DB).tableCompaction
+//@   props C18
+//@   trusted
+//@ ghost var gPerErr bool
+//@ func (*DB).tableNeedCompaction
+//@   props C18
+//@   safety off
+//@   at entry
+//@     ghost gPerErr = false
+//@   at call (*DB).persistentErr#1
+//@     ghost gPerErr = result != nil
+//@   ensures [C18:no-table-compaction-is-due-in-the-persistent-error-state] gPerErr ==> !result
+//@ func (*DB).tableAutoCompaction
+//@   props C18
+//@   safety off
+//@   at entry
+//@     ghost gPerErr = false
+//@   at call (*DB).persistentErr#1
+//@     ghost gPerErr = result != nil
+//@   at before call (*session).pickCompaction#1
+//@     assert [C18:no-table-compaction-is-picked-in-the-persistent-error-state] !gPerErr
+//@ func (*DB).tableRangeCompaction
+//@   props C18
+//@   safety off
+//@   at entry
+//@     ghost gPerErr = false
+//@   at call (*DB).persistentErr#1
+//@     ghost gPerErr = result != nil
+//@   at before call (*DB).tableCompaction#*
+//@     assert [C18:a-range-compaction-is-refused-in-the-persistent-error-state] !gPerErr
+//@   ensures [C18:a-range-compaction-is-refused-in-the-persistent-error-state] gPerErr ==> result != nil
+//@ func (*DB).persistentErr
+//@   props C18
+//@   safety off
+//@   ensures [C18:the-flag-raised-by-the-error-goroutine-is-what-counts] (db.compPerErrSet != 0) ==> result != nil
 
 // A released snapshot has no list element any more: printing it must not dereference one (F32).
 //@ func (*Snapshot).String
